@@ -10,6 +10,7 @@ Program grammar (each node is a dict; `k` = kind):
   wfc    : polls (poll number at which the strategy says stop), fail_at (poll number that raises, 0=never), delay, caught
   child  : body [nodes], caught, large, summary, raises
   wfcb   : caught, fail (submitter failures), max               (wait_for_callback)
+  any    : mutate (the program modifies the delivered list / dict / set in place)
   map/par: branches [[nodes]...], maxc, cfg {min, tolc, tolp} | None, caught, large
   log    : pt
 Paths are strings: "1", "2", "3/1", "4/b0/2" ... exactly the structure operation ids are derived from.
@@ -105,7 +106,10 @@ def wfc_state(node, k):
         return node.get("init", {"n": 0, "h": []})
     if "states" in node:
         st = node["states"]
-        return st[min(k, len(st)) - 1]
+        v = st[min(k, len(st)) - 1]
+        if isinstance(v, dict) and set(v) == {"pool"}:
+            return VALUE_POOL[v["pool"] % len(VALUE_POOL)]("wfc", k)     # a value of the serializer's richer domain (aware datetime, Decimal, bytes, ...)
+        return v
     return {"n": k, "h": list(range(1, k + 1))}
 
 
@@ -271,6 +275,15 @@ def build_handler(prog: dict, rec: Recorder):
             raise
         rec.deliver(path, "value", typed_repr(v))
         obs.append(typed_repr(v))
+        if node.get("mutate"):
+            # user code that modifies what it was given (in place): the next delivery at this position - and any other position
+            # with an equal recorded value - must not see the modification
+            if isinstance(v, list):
+                v.append("mutated-by-user")
+            elif isinstance(v, dict):
+                v["mutated-by-user"] = True
+            elif isinstance(v, (set, bytearray)):
+                v.clear()
         return v
 
     def run_node(ctx, node, path, obs):
@@ -290,7 +303,9 @@ def build_handler(prog: dict, rec: Recorder):
                     rec.fn_exit(path, False)
                     if node.get("errmsg") is not None:
                         # an exception with a given (possibly empty) message: `raise ValueError` / `raise ValueError("")`
-                        raise ERR_TYPES[node.get("errtype", "UserError")](*([node["errmsg"]] if node["errmsg"] != "<none>" else []))
+                        arg = {"<set>": {1, 2}, "<exc>": KeyError("inner")}.get(node["errmsg"], node["errmsg"]) \
+                            if isinstance(node["errmsg"], str) else node["errmsg"]
+                        raise ERR_TYPES[node.get("errtype", "UserError")](*([arg] if node["errmsg"] != "<none>" else []))
                     raise ERR_TYPES[node.get("errtype", "UserError")](f"fail {path} a{attempt}")
                 v = value_for(node, path, attempt)
                 rec.fn_exit(path, True)
@@ -482,8 +497,18 @@ def build_handler(prog: dict, rec: Recorder):
             raise UserError("E" * (6 * 1024 * 1024 - 50 - 40))
         if frl:
             raise UserError("E" * (6 * 1024 * 1024))
+        if prog.get("final_raise") == "int":
+            raise ValueError(404)                    # an exception whose single argument is not a string
+        if prog.get("final_raise") == "set":
+            raise RuntimeError({"a", "b"})           # ... and not even JSON-encodable
         if prog.get("final_raise"):
             raise UserError("handler raises")
+        fv = prog.get("final_value")
+        if fv:
+            # the handler RETURNS something json cannot encode: the invocation must end FAILED (well-formed), not raise
+            return {"set": {"a", "b"}, "bytes": b"\x00\xff", "datetime": datetime.datetime(2024, 5, 6, tzinfo=datetime.timezone.utc),
+                    "decimal": [obs, decimal.Decimal("1.5")], "tuplekey": {(1, 2): obs}, "object": {"o": object()},
+                    "nan": obs}[fv]
         return obs
 
     return handler
